@@ -79,7 +79,7 @@ func (d *Driver) sample() {
 					if st.Token != o.termToken {
 						d.h.violate("C18", "leader-status-token", fmt.Sprintf("i%d.%d leads term token %s but Status().Token=%s", in.idx, o.gen, short(o.termToken), short(st.Token)), now, d.step)
 					}
-					if st.Revision != o.lastAckRev {
+					if !o.lateAck && st.Revision != o.lastAckRev {
 						d.h.violate("C18", "leader-status-revision", fmt.Sprintf("i%d.%d leads; latest acknowledged write rev=%d but Status().Revision=%d", in.idx, o.gen, o.lastAckRev, st.Revision), now, d.step)
 					}
 				}
@@ -87,7 +87,10 @@ func (d *Driver) sample() {
 					d.h.violate("C18", "gauge-differs-from-flag", fmt.Sprintf("i%d.%d is-leader gauge=%v IsLeader()=%v", in.idx, o.gen, o.gauge, isL), now, d.step)
 				}
 				// follower convergence
-				if cur && in.running && !isL && in.watchOK && !d.faultyFor(in.idx) {
+				// judged only when one Get is shorter than half the 500 ms check period: otherwise the
+				// watch loop can be busy with back-to-back periodic checks and the moment it drains
+				// its event channel depends on select fairness, for which the statement gives no number
+				if cur && in.running && !isL && in.watchOK && !d.faultyFor(in.idx) && p.Store.Req[1]+p.Store.Resp[1] < 250*time.Millisecond {
 					if ow := d.owners[in.cfg.Group]; ow != nil && ow.id != in.cfg.ID {
 						t0 := ow.since
 						if in.watchOKAt > t0 {
@@ -96,11 +99,14 @@ func (d *Driver) sample() {
 						if d.lastFaultEnd > t0 {
 							t0 = d.lastFaultEnd
 						}
+						// The statement gives no number for "converges"; the check allows both ways a
+						// follower can learn the owner to complete: a periodic check (500 ms + one Get)
+						// and the delivery of the watch events (the plan's maximal watch delay).
 						bound := 500*time.Millisecond + p.Store.Req[1] + p.Store.Resp[1] + 2*time.Millisecond
 						if wd := p.Store.WatchDelay[1] + 2*time.Millisecond; wd > bound {
-							// not used: the periodic check is what the bound rests on
-							_ = wd
+							bound = wd
 						}
+						bound += 600*time.Millisecond + p.Store.Req[1] + p.Store.Resp[1]
 						if now > t0+bound+p.Sched.StallMax*4 && st.LeaderID != ow.id {
 							d.h.violate("C18", fmt.Sprintf("follower-leaderid-not-converged/have-empty=%v", st.LeaderID == ""),
 								fmt.Sprintf("i%d.%d follower since %v: live record names %s since %v but Status().LeaderID=%q", in.idx, o.gen, in.watchOKAt, ow.id, ow.since, st.LeaderID), now, d.step)
@@ -478,12 +484,12 @@ func (d *Driver) judgeC19() {
 // ---------- C17 (iii): acquisition rounds; in-situ CalculateBackoff bound ----------
 
 func (d *Driver) judgeC17rounds() {
-	// group jitter draws and create ops by goroutine
+	// group jitter draws, attempt starts and store ops by goroutine (= acquisition round)
 	type round struct {
-		start   *JitterEvt
-		draws   []*JitterEvt
-		creates []*Op
-		ops     []*Op
+		start    *JitterEvt
+		draws    []*JitterEvt
+		attempts []*AttemptEvt
+		ops      []*Op
 	}
 	rounds := map[uint64]*round{}
 	var order []uint64
@@ -501,12 +507,14 @@ func (d *Driver) judgeC17rounds() {
 			}
 		}
 	}
+	for _, a := range d.h.Attempts {
+		if r := rounds[a.GID]; r != nil && a.T >= r.start.T {
+			r.attempts = append(r.attempts, a)
+		}
+	}
 	for _, op := range d.h.Ops {
 		if r := rounds[op.GID]; r != nil && op.TInvoke >= r.start.T {
 			r.ops = append(r.ops, op)
-			if op.Kind == "create" {
-				r.creates = append(r.creates, op)
-			}
 		}
 	}
 	stallOf := func(g uint64, a, b time.Duration) time.Duration {
@@ -520,32 +528,42 @@ func (d *Driver) judgeC17rounds() {
 	}
 	for _, g := range order {
 		r := rounds[g]
-		if len(r.creates) == 0 {
+		if len(r.attempts) == 0 {
 			continue
 		}
 		d.judgedInc("C17")
-		first := r.creates[0]
-		wait := first.TInvoke - r.start.T
+		first := r.attempts[0]
+		inst := -1
+		if len(r.ops) > 0 {
+			inst = r.ops[0].Inst
+		}
+		wait := first.T - r.start.T
 		want := 10*time.Millisecond + time.Duration(r.start.F*float64(90*time.Millisecond))
-		slack := stallOf(g, r.start.T, first.TInvoke)
+		slack := stallOf(g, r.start.T, first.T)
 		if wait < 10*time.Millisecond || wait > 100*time.Millisecond+slack {
-			d.h.violate("C17", "acquire-jitter-out-of-range", fmt.Sprintf("round of i%d: first Create %v after the round began (must be 10-100ms)", first.Inst, wait), first.TInvoke, first.SInvoke)
+			d.h.violate("C17", "acquire-jitter-out-of-range", fmt.Sprintf("round of i%d: first attempt %v after the round began (must be 10-100ms)", inst, wait), first.T, first.Step)
 		} else if wait < want || wait > want+slack {
-			d.h.violate("C17", "acquire-jitter-not-from-draw", fmt.Sprintf("round of i%d: waited %v, draw %.6f gives %v", first.Inst, wait, r.start.F, want), first.TInvoke, first.SInvoke)
+			d.h.violate("C17", "acquire-jitter-not-from-draw", fmt.Sprintf("round of i%d: waited %v, draw %.6f gives %v", inst, wait, r.start.F, want), first.T, first.Step)
 		}
-		if len(r.creates) > 4 {
-			d.h.violate("C17", "acquire-more-than-4-attempts", fmt.Sprintf("round of i%d made %d Create attempts", first.Inst, len(r.creates)), r.creates[4].TInvoke, r.creates[4].SInvoke)
+		if len(r.attempts) > 4 {
+			d.h.violate("C17", "acquire-more-than-4-attempts", fmt.Sprintf("round of i%d made %d attempts", inst, len(r.attempts)), r.attempts[4].T, r.attempts[4].Step)
 		}
-		// gaps: end of attempt k (return of the last op before the next create) + backoff(k) = next create
-		for k := 1; k < len(r.creates); k++ {
-			nxt := r.creates[k]
-			var lastRet time.Duration = -1
+		// gaps: end of attempt k (return of its last store operation, or its start if it issued
+		// none) + backoff(k) = start of attempt k+1
+		for k := 1; k < len(r.attempts); k++ {
+			prev, nxt := r.attempts[k-1], r.attempts[k]
+			lastRet := prev.T
+			pending := false
 			for _, op := range r.ops {
-				if op.SInvoke < nxt.SInvoke && op.TRet >= 0 && op.TRet > lastRet {
-					lastRet = op.TRet
+				if op.TInvoke >= prev.T && op.SInvoke < nxt.Step+1 && op.TInvoke <= nxt.T {
+					if op.TRet < 0 || op.TRet > nxt.T {
+						pending = true
+					} else if op.TRet > lastRet {
+						lastRet = op.TRet
+					}
 				}
 			}
-			if lastRet < 0 || k-1 >= len(r.draws) {
+			if pending || k-1 >= len(r.draws) {
 				continue
 			}
 			base := float64(50*time.Millisecond) * math.Pow(2, float64(k-1))
@@ -554,19 +572,38 @@ func (d *Driver) judgeC17rounds() {
 			}
 			f := r.draws[k-1].F
 			wantB := time.Duration(base + base*0.1*(f*2-1))
-			gap := nxt.TInvoke - lastRet
-			sl := stallOf(g, lastRet, nxt.TInvoke)
+			gap := nxt.T - lastRet
+			sl := stallOf(g, lastRet, nxt.T)
 			lo, hi := time.Duration(base*0.9), time.Duration(base*1.1)
 			if gap < lo || gap > hi+sl {
-				d.h.violate("C17", "acquire-backoff-out-of-range", fmt.Sprintf("round of i%d: gap %v before attempt %d, expected within 10%% of %v", first.Inst, gap, k+1, time.Duration(base)), nxt.TInvoke, nxt.SInvoke)
+				d.h.violate("C17", "acquire-backoff-out-of-range", fmt.Sprintf("round of i%d: gap %v before attempt %d, expected within 10%% of %v", inst, gap, k+1, time.Duration(base)), nxt.T, nxt.Step)
 			} else if gap < wantB-1 || gap > wantB+sl+1 {
-				d.h.violate("C17", "acquire-backoff-not-from-draw", fmt.Sprintf("round of i%d: gap %v before attempt %d, draw gives %v", first.Inst, gap, k+1, wantB), nxt.TInvoke, nxt.SInvoke)
+				d.h.violate("C17", "acquire-backoff-not-from-draw", fmt.Sprintf("round of i%d: gap %v before attempt %d, draw gives %v", inst, gap, k+1, wantB), nxt.T, nxt.Step)
 			}
 		}
 	}
 }
 
 // ---------- C09 ----------
+
+// stopBudget is the time a StopWithContext call may take: its Timeout option (or, if zero,
+// the context's deadline, or 5 s), cut short by the context's own deadline or cancellation.
+func stopBudget(a *Action) time.Duration {
+	to := a.Timeout
+	if to == 0 {
+		to = 5 * time.Second
+		if a.CtxTimeout > 0 {
+			to = a.CtxTimeout
+		}
+	}
+	if a.CtxTimeout > 0 && a.CtxTimeout < to {
+		to = a.CtxTimeout
+	}
+	if a.CtxCancelAt > 0 && a.CtxCancelAt < to {
+		to = a.CtxCancelAt
+	}
+	return to
+}
 
 func (d *Driver) judgeC09() {
 	for _, a := range d.h.Apis {
@@ -592,20 +629,25 @@ func (d *Driver) judgeC09() {
 				d.h.violate("C09", "stop-too-slow", fmt.Sprintf("i%d Stop took %v (> 5s + OnDemote %v)", a.Inst, dur, in.cfg.DemoteDur), a.TRet, a.SRet)
 			}
 		} else {
-			to := a.Act.Timeout
-			if to == 0 {
-				if a.Act.CtxTimeout > 0 {
-					to = a.Act.CtxTimeout
-				} else {
-					to = 5 * time.Second
-				}
-			}
+			to := stopBudget(a.Act)
 			if dur > to+time.Millisecond {
 				d.h.violate("C09", "stopctx-exceeds-timeout", fmt.Sprintf("i%d StopWithContext(timeout %v, wait_for_demote=%v) took %v", a.Inst, to, a.Act.WaitForDemote, dur), a.TRet, a.SRet)
 			}
 		}
 		if a.Err != nil {
 			continue // only a successful stop is final
+		}
+		// another stop call of the same object still running when this one returned: the object
+		// is "in the middle of a stop call"; the later return is the one that is judged
+		overlapped := false
+		for _, b := range d.h.Apis {
+			if b != a && b.Inst == a.Inst && b.Gen == a.Gen && (b.Kind == AStop || b.Kind == AStopCtx) && b.SInv <= a.SRet && (b.TRet < 0 || b.SRet > a.SRet || (b.SRet == a.SRet && b.ID > a.ID)) {
+				overlapped = true
+			}
+		}
+		if overlapped {
+			d.skip("C09", "overlapping-stop-calls")
+			continue
 		}
 		// the window in which the instance must stay silent: until its next Start (or end of plan)
 		endStep := d.endStep
@@ -632,7 +674,26 @@ func (d *Driver) judgeC09() {
 		// DeleteKey by the owner: record gone at return
 		if a.Kind == AStopCtx && a.Act.DeleteKey && a.WasLeaderAtInv {
 			// was X the owner at entry?
-			if a.OwnerAtInv {
+			// judged only if the deletion the call issued was not hit by an injected store fault
+			// (the statement cannot promise the record gone when the store does not answer)
+			// ... and completed (or would have completed) before the call's own deadline: with a slow
+			// store the call cannot both honour its time-out and wait for the deletion
+			faulted, issued := false, false
+			to := stopBudget(a.Act)
+			for _, op := range d.h.Ops {
+				if op.Inst == a.Inst && op.Gen == a.Gen && op.Kind == "delete" && op.SInvoke >= a.SInv && op.SInvoke <= a.SRet {
+					issued = true
+					if op.Fault != "" || !op.Applied || op.TRet < 0 || op.TRet > a.TInv+to-time.Millisecond {
+						faulted = true
+					}
+				}
+			}
+			if faulted {
+				d.skip("C09", "deletekey-delete-faulted")
+			} else if a.OwnerAtInv {
+				if !issued {
+					d.h.violate("C09", "deletekey-no-delete-issued", fmt.Sprintf("i%d StopWithContext(DeleteKey) by the record's owner returned at %v without issuing a delete", a.Inst, a.TRet), a.TRet, a.SRet)
+				}
 				for _, v := range d.store.All {
 					if v.Key == in.cfg.Group && v.Op == opPut && v.Writer == a.Inst && v.Gen == a.Gen {
 						e, _ := v.EndAt(d.store.MaxAge)
